@@ -16,6 +16,7 @@ import (
 	"bytes"
 	"context"
 	"fmt"
+	"math/big"
 	"math/rand"
 	"net/http"
 	"net/http/httptest"
@@ -215,25 +216,30 @@ func inmOutcome(rq request) bool {
 }
 
 var (
-	reCR     = regexp.MustCompile(`^bytes (-?\d{1,18})-(-?\d{1,18})/(\d{1,18})$`)
-	reCRStar = regexp.MustCompile(`^bytes \*/(\d{1,18})$`)
+	// numbers of any length and sign: an overflowed Content-Range / Content-Length must reach Coq as what it says
+	reCR     = regexp.MustCompile(`^bytes (-?\d{1,40})-(-?\d{1,40})/(-?\d{1,40})$`)
+	reCRStar = regexp.MustCompile(`^bytes \*/(-?\d{1,40})$`)
 	reNum    = regexp.MustCompile(`\d+`)
-	reCL     = regexp.MustCompile(`^\d{1,18}$`)
+	reCL     = regexp.MustCompile(`^-?\d{1,40}$`)
 )
+
+func bigZ(d string) string {
+	b, ok := new(big.Int).SetString(d, 10)
+	if !ok {
+		panic("bigZ: " + d)
+	}
+	return vh.ZBig(b)
+}
 
 func crCoq(s string) string {
 	if s == "" {
 		return "CRNone"
 	}
 	if m := reCR.FindStringSubmatch(s); m != nil {
-		a, _ := strconv.ParseInt(m[1], 10, 64)
-		b, _ := strconv.ParseInt(m[2], 10, 64)
-		n, _ := strconv.ParseInt(m[3], 10, 64)
-		return vh.App("CRRange", vh.Z(a), vh.Z(b), vh.Z(n))
+		return vh.App("CRRange", bigZ(m[1]), bigZ(m[2]), bigZ(m[3]))
 	}
 	if m := reCRStar.FindStringSubmatch(s); m != nil {
-		n, _ := strconv.ParseInt(m[1], 10, 64)
-		return vh.App("CRStar", vh.Z(n))
+		return vh.App("CRStar", bigZ(m[1]))
 	}
 	return "CRBad"
 }
@@ -271,8 +277,7 @@ func (f *file) caseTerm(rq request, o observed) (string, bool) {
 	ok := true
 	if o.cl != "" {
 		if reCL.MatchString(o.cl) {
-			n, _ := strconv.ParseInt(o.cl, 10, 64)
-			cl = vh.Opt(true, vh.Z(n))
+			cl = vh.Opt(true, bigZ(o.cl))
 		} else {
 			ok = false // unparsable Content-Length: reported by the caller
 		}
@@ -332,7 +337,44 @@ func ws(r *rand.Rand) string {
 var malformed = []string{"5", "a-b", "--5", "-", "- 5", "5-6-7", "5-x", "x-5", "-x", "99999999999999999999-", "-99999999999999999999",
 	"9223372036854775807-", "-9223372036854775807", "-9223372036854775808", "0-9223372036854775808", "1-+", "+-1", "5 6-7", "0x1-", "1_0-", "-+3", "3-+8", "١-٢"}
 
+// numbers at the int64 / int32 boundaries: 2^63-1 and 2^63-2 parse, 2^63 and above are ParseInt range errors
+var bigNums = []string{"9223372036854775807", "9223372036854775807", "9223372036854775806", "9223372036854775808", "9223372036854775809",
+	"4294967295", "4294967296", "4294967297", "2147483647", "2147483648", "18446744073709551615", "18446744073709551616",
+	"4611686018427387904", "9223372036854775797"}
+
+func bigNum(r *rand.Rand) string { return bigNums[r.Intn(len(bigNums))] }
+
+func smallNum(r *rand.Rand, size, chunk int) string {
+	switch r.Intn(6) {
+	case 0, 1:
+		return "0"
+	case 2:
+		return "1"
+	case 3:
+		return strconv.Itoa(size - 1 + r.Intn(3))
+	}
+	return fmtNum(r, pickNum(r, size, chunk))
+}
+
+// a spec with a number at the int64 boundary: start, end or suffix length
+func genBoundarySpec(r *rand.Rand, size, chunk int) string {
+	switch r.Intn(8) {
+	case 0, 1, 2, 3:
+		return smallNum(r, size, chunk) + "-" + bigNum(r)
+	case 4:
+		return bigNum(r) + "-" + bigNum(r)
+	case 5:
+		return bigNum(r) + "-"
+	case 6:
+		return "-" + bigNum(r)
+	}
+	return ws(r) + smallNum(r, size, chunk) + ws(r) + "-" + ws(r) + bigNum(r) + ws(r)
+}
+
 func genSpec(r *rand.Rand, size, chunk int) string {
+	if r.Intn(9) == 0 {
+		return genBoundarySpec(r, size, chunk)
+	}
 	switch k := r.Intn(100); {
 	case k < 36: // from-to
 		a := pickNum(r, size, chunk)
@@ -476,6 +518,20 @@ func corpusRequests() []request {
 			g(m, "bytes=0-4,5-9,0-0", "none", "none"), g(m, "bytes=9-100", "none", "none"), g(m, "bytes=+2-+5", "none", "none"),
 			g(m, "bytes=10-,11-", "none", "none"), g(m, "bytes=-10", "none", "none"), g(m, "bytes=-11", "none", "none"),
 			g(m, "bytes=3-,1-2", "none", "none"), g(m, "bytes=1-2,3-", "none", "none"), g(m, "bytes=-1,-2", "none", "none"),
+			// int64 boundaries: ends/starts/suffix lengths at 2^63-1, 2^63-2, 2^63 (ParseInt error), 2^32+-1, sums across ranges
+			g(m, "bytes=0-9223372036854775807", "none", "none"), g(m, "bytes=1-9223372036854775807", "none", "none"),
+			g(m, "bytes=0-9223372036854775806", "none", "none"), g(m, "bytes=0-9223372036854775808", "none", "none"),
+			g(m, "bytes=9-9223372036854775807", "none", "none"), g(m, "bytes=10-9223372036854775807", "none", "none"),
+			g(m, "bytes=9223372036854775807-", "none", "none"), g(m, "bytes=9223372036854775806-9223372036854775807", "none", "none"),
+			g(m, "bytes=9223372036854775807-9223372036854775807", "none", "none"), g(m, "bytes=-9223372036854775807", "none", "none"),
+			g(m, "bytes=-9223372036854775806", "none", "none"), g(m, "bytes=-9223372036854775808", "none", "none"),
+			g(m, "bytes=0-4294967295", "none", "none"), g(m, "bytes=0-4294967296", "none", "none"), g(m, "bytes=0-4294967297", "none", "none"),
+			g(m, "bytes=4294967296-", "none", "none"), g(m, "bytes=-4294967297", "none", "none"), g(m, "bytes=0-2147483648", "none", "none"),
+			g(m, "bytes=0-9223372036854775807,0-9223372036854775807", "none", "none"),
+			g(m, "bytes=2-9223372036854775807,0-0", "none", "none"), g(m, "bytes=0-0,0-9223372036854775807", "none", "none"),
+			g(m, "bytes=5-9223372036854775807,6-9223372036854775806,7-4611686018427387904", "none", "none"),
+			g(m, "bytes=-9223372036854775807,-9223372036854775807", "none", "none"),
+			g(m, "bytes=0-9223372036854775807", "other", "none"), g(m, "bytes=0-9223372036854775807", "etag", "none"),
 		)
 	}
 	return out
@@ -536,6 +592,9 @@ func TestC30(t *testing.T) {
 		for i := 0; i < n; i++ {
 			rqs = append(rqs, genRequest(r, f))
 		}
+		// every file (any size and layout) also gets the int64 end boundary and one more boundary request
+		rqs = append(rqs, request{Method: []string{"GET", "GET", "HEAD"}[r.Intn(3)], Range: "bytes=0-9223372036854775807", IfR: "none", INM: "none"},
+			request{Method: "GET", Range: "bytes=" + genBoundarySpec(r, len(f.data), f.cfg.Chunk), IfR: "none", INM: "none"})
 		for _, rq := range rqs {
 			o := w.do(f, rq)
 			term, ok := f.caseTerm(rq, o)
